@@ -19,7 +19,7 @@ RULE = ('(a) ZerothMonitor on every depth-0 public UTPM call that has a NumPy/Sc
         '(function, shape); (d) module-level entry points (dot, outer, tile, diag, triu, tril, trace, sum, transpose, reshape, fft, ifft, maximum, minimum, prod, inv, det, solve) with polynomial and traced (Function) arguments over rank / extent combinations incl. single-element operands of rank >= 1, the returned object compared directly with NumPy; non-trivial = the call has at least one polynomial argument (a) / array argument (c)')
 ASSUMPTIONS = ['NumPy/SciPy on the zeroth coefficients is the specification', 'singular vectors and general eigenvectors are excluded by the statement (C08 covers them)',
                '!= is derived by Python from __eq__ and only checked for single-element operands']
-REQUIRED = ['zeroth-shadow', 'compare:__lt__', 'compare:__le__', 'compare:__gt__', 'compare:__ge__', 'compare:__eq__', 'compare:Function', 'plain', 'branches', 'entry']
+REQUIRED = ['zeroth-shadow', 'compare:__lt__', 'compare:__le__', 'compare:__gt__', 'compare:__ge__', 'compare:__eq__', 'compare:Function', 'plain', 'branches', 'entry', 'integer-typed-polynomial']
 
 _mon = None
 
@@ -61,6 +61,9 @@ def cases(tier, seed):
             for P in (1, 3):
                 for wrap in ('utpm', 'function'):
                     out.append({'kind': 'entry', 'seed': case_seed('C10', seed, 'entry', D, P, wrap, rep), 'params': {'D': D, 'P': P, 'wrap': wrap}})
+    for rep in range(reps):
+        for D in (1, 2):
+            out.append({'kind': 'intpoly', 'seed': case_seed('C10', seed, 'intpoly', D, rep), 'params': {'D': D, 'P': 1 + rep % 2}})
     for rep in range(reps * 3):
         out.append({'kind': 'plain', 'seed': case_seed('C10', seed, 'plain', rep), 'params': {}})
     return out
@@ -77,6 +80,72 @@ def run_case(ctx, case):
             probe.S.suppress = False
     rng = gen.rng_of(case)
     return globals()['_' + case['kind']](ctx, case['params'], rng)
+
+
+def _intpoly(ctx, p, rng):
+    """polynomials whose coefficient array has an integer dtype (UTPM(numpy.array([[1, 2, 3]])), counts, indices, grid points): NumPy
+    computes exp, sqrt, /, inv, ... of integer arrays in floating point, so does the zeroth coefficient here.  One mechanism per
+    operation (`integer-typed-polynomial:<op>`): the operations of the pinned tree that compute in the integer dtype are listed
+    as one known finding, any other operation is reported"""
+    import operator
+    D, P = p['D'], p['P']
+    probe.S.suppress = True
+    try:
+        v = rng.integers(1, 5, size=(D, P, 3)); m = rng.integers(-2, 3, size=(D, P, 3, 3)); m[0] = m[0] + 6 * np.eye(3, dtype=int)
+        w = rng.integers(1, 4, size=(D, P, 3))
+        ops = [(nm, (lambda nm: lambda: getattr(algopy, nm)(UTPM(v.copy())))(nm), (lambda nm: lambda: getattr(np, nm)(v[0, pp]))(nm))
+               for nm in ('exp', 'expm1', 'log', 'log1p', 'sqrt', 'sin', 'cos', 'tan', 'arctan', 'sinh', 'cosh', 'tanh', 'square', 'reciprocal', 'negative', 'absolute', 'sign')
+               if hasattr(algopy, nm)]
+        ops += [('truediv:poly/poly', lambda: UTPM(v.copy()) / UTPM(w.copy()), lambda: v[0, pp] / w[0, pp]),
+                ('truediv:poly/int', lambda: UTPM(v.copy()) / 4, lambda: v[0, pp] / 4),
+                ('truediv:int/poly', lambda: 3 / UTPM(v.copy()), lambda: 3 / v[0, pp]),
+                ('truediv:poly/intarray', lambda: UTPM(v.copy()) / w[0, 0], lambda: v[0, pp] / w[0, 0]),
+                ('itruediv:poly/=poly', lambda: operator.itruediv(UTPM(v.copy()), UTPM(w.copy())), lambda: v[0, pp] / w[0, pp]),
+                ('mul:poly*float', lambda: UTPM(v.copy()) * 0.5, lambda: v[0, pp] * 0.5), ('add:poly+float', lambda: UTPM(v.copy()) + 0.5, lambda: v[0, pp] + 0.5),
+                ('sub:float-poly', lambda: 0.5 - UTPM(v.copy()), lambda: 0.5 - v[0, pp]), ('mul:poly*poly', lambda: UTPM(v.copy()) * UTPM(w.copy()), lambda: v[0, pp] * w[0, pp]),
+                ('pow:poly**2', lambda: UTPM(v.copy()) ** 2, lambda: v[0, pp] ** 2), ('pow:poly**0.5', lambda: UTPM(v.copy()) ** 0.5, lambda: v[0, pp] ** 0.5),
+                ('pow:2.0**poly', lambda: 2.0 ** UTPM(v.copy()), lambda: 2.0 ** v[0, pp]), ('pow:poly**poly', lambda: UTPM(v.copy()) ** UTPM(w.copy()), lambda: v[0, pp].astype(float) ** w[0, pp]),
+                ('iadd:poly+=float', lambda: operator.iadd(UTPM(v.copy()), 0.5), None), ('imul:poly*=float', lambda: operator.imul(UTPM(v.copy()), 0.5), None),
+                ('inv', lambda: algopy.inv(UTPM(m.copy())), lambda: np.linalg.inv(m[0, pp])), ('det', lambda: algopy.det(UTPM(m.copy())), lambda: np.linalg.det(m[0, pp])),
+                ('logdet', lambda: algopy.logdet(UTPM(m.copy())), lambda: np.log(np.linalg.det(m[0, pp]))),
+                ('solve', lambda: algopy.solve(UTPM(m.copy()), UTPM(v.reshape(D, P, 3, 1).copy())), lambda: np.linalg.solve(m[0, pp], v[0, pp].reshape(3, 1))),
+                ('dot', lambda: algopy.dot(UTPM(m.copy()), UTPM(v.copy())), lambda: np.dot(m[0, pp], v[0, pp])), ('trace', lambda: algopy.trace(UTPM(m.copy())), lambda: np.trace(m[0, pp])),
+                ('sum', lambda: algopy.sum(UTPM(v.copy())), lambda: np.sum(v[0, pp])), ('fft', lambda: algopy.fft.fft(UTPM(v.copy())), lambda: np.fft.fft(v[0, pp])),
+                ('qr:R', lambda: algopy.qr(UTPM(m.copy()))[1], lambda: np.linalg.qr(m[0, pp])[1] * np.sign(np.diag(np.linalg.qr(m[0, pp])[1]))[:, None]),
+                ('eigh:values', lambda: algopy.eigh(UTPM((m + np.swapaxes(m, -1, -2)).copy()))[0], lambda: np.linalg.eigh(m[0, pp] + m[0, pp].T)[0]),
+                ('cholesky', lambda: algopy.cholesky(UTPM((np.einsum('dpij,dpkj->dpik', m[:1], m[:1]).repeat(D, axis=0)).copy())), lambda: np.linalg.cholesky(m[0, pp] @ m[0, pp].T))]
+        for name, call, ref in ops:
+            mech = 'integer-typed-polynomial:' + name
+            try:
+                with np.errstate(all='ignore'):
+                    y = call()
+            except Exception as e:
+                try:
+                    pp = 0
+                    with np.errstate(all='ignore'):
+                        ref() if ref else None
+                except Exception:
+                    ctx.skip('numpy-rejects:' + name); continue          # NumPy refuses the integer operand too (in-place forms, int ** -1)
+                if ref is None:
+                    ctx.skip('numpy-rejects:' + name); continue
+                ctx.violation(mech + ':raises', {'operation': name, 'D': D, 'P': P, 'error': repr(e)[:160]}); continue
+            if ref is None or not isinstance(y, UTPM):
+                continue
+            bad = None
+            for pp in range(P):
+                with np.errstate(all='ignore'):
+                    r = np.asarray(ref())
+                g = y.data[0, pp]
+                if name == 'qr:R':
+                    g = g * np.sign(np.diag(g))[:, None]
+                if g.shape != r.shape or not np.allclose(g, r, rtol=1e-10, atol=1e-12, equal_nan=True):
+                    bad = {'direction': pp, 'got': np.asarray(g).tolist(), 'numpy': r.tolist(), 'result_dtype': str(y.data.dtype)}
+                    break
+            if bad:
+                ctx.violation(mech, dict(bad, operation=name, D=D, P=P)); continue
+            ctx.ok('integer-typed-polynomial', ('intpoly', name, D, P))
+    finally:
+        probe.S.suppress = False
 
 
 def _t(ctx, f):
